@@ -104,6 +104,38 @@ def interpret(symbols):
     return values, calls
 
 
+def describe(symbols, nodes, table, gids, system, user):
+    """Position-based description of the emitted symbols: [[op, [argument positions]]]."""
+    position = {id(sym.instruction): k for k, sym in enumerate(symbols)}
+    owner = {}
+    if table is not None:
+        for k, node in enumerate(nodes):
+            if node.uid in table._index:  # pylint: disable=protected-access
+                owner[id(table._index[node.uid])] = k  # pylint: disable=protected-access
+    out = []
+    for sym in symbols:
+        ins = sym.instruction
+        if isinstance(ins, user.Functor):
+            action, preset = ins.action, False
+            if isinstance(action, user.SetState):
+                action, preset = action._action, True  # pylint: disable=protected-access
+            kind = 'train' if isinstance(action, user.Train) else 'apply' if isinstance(action, user.Apply) else '?'
+            op = ['functor', owner.get(id(ins), -1), kind, preset]
+        elif isinstance(ins, system.Loader):
+            key = ins._key  # pylint: disable=protected-access
+            op = ['loader', next((nodes.index(n) for n in nodes if n.gid == key), -1)]
+        elif isinstance(ins, system.Dumper):
+            op = ['dumper']
+        elif isinstance(ins, system.Committer):
+            op = ['committer']
+        elif isinstance(ins, system.Getter):
+            op = ['getter', ins.index]
+        else:
+            op = ['?', repr(ins)]
+        out.append([op, [position.get(id(a), -1) for a in sym.arguments]])
+    return out
+
+
 def decode(value):
     if isinstance(value, bytes):
         return flowsym.freeze(json.loads(value.decode())) if value else None
@@ -119,10 +151,31 @@ def observe(case):
     assets = None
     if gids is not None:
         assets = Assets(gids, {nodes[i].gid: case['previous'].get(str(i)) for i in case['persistent']})
+    from forml.flow._code import compiler
+    from forml.flow._code.target import system, user
+
+    visit, tables = [], []
+
+    class Recording(compiler.Table):
+        """The real Table, additionally recording the order of its add() calls (the traversal order)."""
+
+        def __init__(self, *args, **kwargs):
+            super().__init__(*args, **kwargs)
+            tables.append(self)
+
+        def add(self, node):
+            visit.append(next(i for i, n in enumerate(nodes) if n is node))
+            super().add(node)
+
+    original = compiler.Table
+    compiler.Table = Recording
     try:
         symbols = flow.compile(segment, assets)
     except Exception as err:  # pylint: disable=broad-except
-        return {'error': f'compile: {type(err).__name__}: {err}'}
+        return {'error': f'compile: {type(err).__name__}: {err}', 'visit': visit}
+    finally:
+        compiler.Table = original
+    table = describe(symbols, nodes, tables[-1] if tables else None, gids, system, user)
     try:
         values, calls = interpret(symbols)
     except Exception as err:  # pylint: disable=broad-except
@@ -135,6 +188,8 @@ def observe(case):
     tail = nodes[case['tail']]
     sink = [v for i, v in values.items() if hasattr(i, 'builder') and i.builder is tail.builder and 'Train' not in repr(i.action)]
     out = {
+        'visit': visit,
+        'table': table,
         'sink': flowsym.freeze([decode(v) for v in sink]),
         'committed': None if assets is None else assets.committed,
         'loads': None if assets is None else sorted(assets.loads),
